@@ -32,6 +32,9 @@ pub struct Facts {
     pub error_at_handshake: bool,
     /// failed receive attempts (timeout/undecodable/irrelevant) within one window, maximum
     pub max_failed_per_window: u64,
+    /// receiver role: longest run of failed receive attempts (timeout or unusable datagram) not interrupted by an
+    /// accepted in-order block - the literal reading of "consecutive"; sender role: same as max_failed_per_window
+    pub max_consecutive_failed: u64,
     pub crossed_wrap: bool,
     pub near_timeout_bursts: u64,
     pub data_dups_delivered: u64,
@@ -288,6 +291,8 @@ fn analyze_sender(sc: &Scenario, r: &SimResult) -> (Vec<Finding>, Facts) {
     if failed_in_window > fa.max_failed_per_window {
         fa.max_failed_per_window = failed_in_window;
     }
+    // the sender's count is reset by an advancing ACK, i.e. by a successful receive: both readings coincide
+    fa.max_consecutive_failed = fa.max_failed_per_window;
     if r.cap_hit {
         push(&mut out, "S8", format!("the worker was still running after {} receive attempts (cap); it never gives up", r.recv_calls));
     }
@@ -321,6 +326,7 @@ fn analyze_receiver(sc: &Scenario, r: &SimResult) -> (Vec<Finding>, Facts) {
     let mut final_acked_at: Option<usize> = None;
     let mut error_at: Option<usize> = None;
     let mut failed_in_window: u64 = 0;
+    let mut failed_run: u64 = 0;
     let mut last_acked_abs: u64 = 0;
     let mut once = std::collections::HashSet::new();
     let mut shape: u64 = 0xcbf29ce484222325;
@@ -405,6 +411,7 @@ fn analyze_receiver(sc: &Scenario, r: &SimResult) -> (Vec<Finding>, Facts) {
                             acc_blocks += 1;
                             acc_len += data.len() as u64;
                             since_ack += 1;
+                            failed_run = 0;
                             fa.accepted_blocks += 1;
                             if acc_blocks > 65535 {
                                 fa.crossed_wrap = true;
@@ -437,6 +444,8 @@ fn analyze_receiver(sc: &Scenario, r: &SimResult) -> (Vec<Finding>, Facts) {
                     _ => {
                         fa.noise += 1;
                         failed_in_window += 1;
+                        failed_run += 1;
+                        fa.max_consecutive_failed = fa.max_consecutive_failed.max(failed_run);
                         mix(&mut shape, 9);
                     }
                 }
@@ -452,6 +461,8 @@ fn analyze_receiver(sc: &Scenario, r: &SimResult) -> (Vec<Finding>, Facts) {
                 }
                 fa.timeouts += 1;
                 failed_in_window += 1;
+                failed_run += 1;
+                fa.max_consecutive_failed = fa.max_consecutive_failed.max(failed_run);
                 mix(&mut shape, 10);
             }
         }
